@@ -742,6 +742,45 @@ def gen_cases(tier, seed):
                     add("swapaxes", with_fmt(sp, fmt, rng), a1=s_, a2=d_)
             add("moveaxis", with_fmt(sp, fmt, rng), src=[0, 0], dst=[0, 1])
             add("moveaxis", with_fmt(sp, fmt, rng), src=[0, 1], dst=[0])
+    # ---- axis tuples that name one axis TWICE through sign aliasing (d and d - ndim), not only literal repeats:
+    # NumPy rejects them all (ValueError / AxisError) after normalising
+    for sp in specs:
+        nd = len(sp["shape"])
+        if nd == 0:
+            continue
+        alias = []
+        for d in range(nd):
+            alias += [[d, d - nd], [d - nd, d]]
+            for o in range(nd):
+                if o != d:
+                    alias += [[o, d, d - nd], [d - nd, o - nd, d]]
+        for fmt in fmts_for(sp):
+            x = with_fmt(sp, fmt, rng)
+            for t in alias:
+                k = len(t)
+                goods = [list(p) for p in itertools.permutations(range(nd), k)][:2] + [[g - nd for g in range(k)]] if k <= nd else []
+                for g in goods:
+                    add("moveaxis", x, src=g, dst=t)
+                    add("moveaxis", x, src=t, dst=g)
+                if k == nd:
+                    add("transpose", x, axes=t)
+                    add("permute_dims", x, axes=t)
+                for name in ("sum", "max", "any", "prod", "mean", "min"):
+                    add(name, x, axis=t)
+                add("squeeze", x, axis=t)
+                if fmt == "coo":
+                    add("flip", x, axis=t)
+                    add("roll", x, shift=[1] * k, axis=t)
+                    add("expand_dims", x, axis=t)
+        if nd >= 2:
+            for d in range(nd):
+                add("diagonal", with_fmt(sp, "coo"), offset=0, a1=d, a2=d - nd)
+                add("diagonal", with_fmt(sp, "coo"), offset=0, a1=d - nd, a2=d)
+                add("swapaxes", with_fmt(sp, "coo"), a1=d, a2=d - nd)
+            for s2 in specs:
+                if s2["shape"] == sp["shape"]:
+                    add("tensordot", with_fmt(sp, "coo"), with_fmt(s2, "coo"), axes=[[0, -nd], [0, 1]])
+                    add("tensordot", with_fmt(sp, "coo"), with_fmt(s2, "coo"), axes=[[0, 1], [1, 1 - nd]])
     # ---- reshape
     ext = [-1, 0, 1, 2, 3, 4]
     targets = [[]] + [[x] for x in ext + [6, 8]] + [list(t) for t in itertools.product(ext, repeat=2)]
@@ -1209,6 +1248,11 @@ def model_of(case):
             if all(-nd <= x < nd for x in ax) and len(set(norm)) < len(norm):
                 return "MNone"      # repeated axes are caught later, by transpose (not by normalize_axis)
             return f"(MAxes {zl(ax)} {vZ(nd)})"
+    if op == "moveaxis" and a["format"] == "coo":
+        src = A["src"] if isinstance(A["src"], list) else [A["src"]]
+        dst = A["dst"] if isinstance(A["dst"], list) else [A["dst"]]
+        if all_int(src) and all_int(dst):
+            return f"(MMoveaxis {zl(src)} {zl(dst)} {vZ(nd)})"
     if op == "transpose" and all_int(A["axes"]) and a["format"] == "coo":
         return f"(MPerm {zl(A['axes'])} {vZ(nd)})"
     if op == "reshape" and a["format"] == "coo" and all(x >= 0 for x in A["shape"]) and list(A["shape"]) != sh:
